@@ -59,6 +59,8 @@ def run(ctx, pid=None):
     if pid in ("C01", "C02"):
         side.append(("cal", generic.engine_run(ctx, "cal", ["--seed", str(ctx.seed), "--stride", "1"], "cal")))
     if pid == "C06":
+        # termination in locations with daylight-saving transitions (hang / crash attribution through supervised workers)
+        side.append(("dst", generic.engine_run(ctx, "dst", ["--seed", str(ctx.seed), "--zones", "12" if not ctx.thorough else "0", "--per-zone", "8", "--date-samples", "2"], "dst", timeout=3000)))
         side.append(("pure", generic.engine_run(ctx, "pure", ["--seed", str(ctx.seed), "--n", "300" if not ctx.thorough else "3000"], "pure")))
         if ctx.thorough:
             rc, out = common.sh(["go", "build", "-race", "-o", common.BIN + "/qh_race", "./cmd/qh"], cwd=os.path.join(common.VERIF, "harness"),
@@ -78,7 +80,8 @@ def run(ctx, pid=None):
             common.report_violation(ctx, "side engine %s failed: %s" % (name, r.get("log", "")[-400:]), {"engine": name}, no_input=True)
             continue
         for v in r["stats"].get("violations", []):
-            common.report_violation(ctx, v, {"engine": name, "what": v})
+            if v.startswith(pid + " ") or name != "dst":
+                common.report_violation(ctx, v, {"engine": name, "what": v})
         if r.get("diffs"):
             i = r["diffs"][0]
             common.report_violation(ctx, "the Lean calendar disagrees with Go's time package on %d instants, first: %s go=%s lean=%s" % (
